@@ -189,7 +189,7 @@ func (s *genState) genProblem(req M) {
 	}
 	s.altIds = nil
 	for i := 0; i < na; i++ {
-		s.altIds = append(s.altIds, fmt.Sprintf("a%02d", ap[i]+1))
+		s.altIds = append(s.altIds, fmt.Sprintf("a%d", ap[i]+1)) // unpadded: "a10" < "a2" as strings
 	}
 	mode := o.ValueMode
 	if mode < 0 {
@@ -295,6 +295,9 @@ func (s *genState) genWeights(allowNeg bool) M {
 			w[id] = base
 		case 1:
 			w[id] = float64(g.Int(1, 9))
+			if allowNeg && g.Chance(1, 6) {
+				w[id] = 0 // a criterion of importance exactly 0
+			}
 		case 2:
 			w[id] = g.Unif(0.05, 10)
 		default:
